@@ -54,8 +54,11 @@ MUTANTS = [
      # ALL names in registration order, so losing the slot on delete cannot permute them; the slot-keeping
      # that matters is in _setattr_keep_slot (EditableModule path), mutated by c10_setattr_slot_revert below
     ("c10_setattr_slot_revert", "C10", "xitorch/_utils/attr.py",
-     "        obj._parameters[name] = None\n        obj.__dict__[name] = val\n    else:\n        setattr(obj, name, val)\n",
+     "        obj.__dict__.pop(name, None)\n        obj._parameters[name] = val\n    else:\n        setattr(obj, name, val)\n",
      "        del obj._parameters[name]\n        obj.__dict__[name] = val\n    else:\n        setattr(obj, name, val)\n", 1),
+    ("c10_param_slot_shadow_revert", "C10", "xitorch/_utils/attr.py",     # revert of e0a2728
+     "        obj.__dict__.pop(name, None)\n        obj._parameters[name] = val\n    else:\n        setattr(obj, name, val)\n",
+     "        obj._parameters[name] = None\n        obj.__dict__[name] = val\n    else:\n        setattr(obj, name, val)\n", 1),
     ("c10_quad_lock_not_released", "C10", "xitorch/_core/pure_function.py",
      "        finally:\n            self._state_change_allowed = prev_status\n",
      "        except ZeroDivisionError:\n            pass\n        if True:\n            self._state_change_allowed = prev_status\n", 1),
@@ -161,7 +164,7 @@ MUTANTS = [
      "            self.setparams(methodname, *_orig_params_)\n",
      "            self.setuniqueparams(methodname, *params)\n", 1),
     ("c17_solve_bwd_no_substitution", "C17", "xitorch/linalg/solve.py",
-     "            params = [p.clone().requires_grad_() for p in params]\n            with ctx.A.uselinopparams(*params):\n                loss = -ctx.A.mm(x)  # (*BABEM, nr, ncols)\n",
+     "            params = [p.clone().requires_grad_() if p.requires_grad else p for p in params]\n            with ctx.A.uselinopparams(*params):\n                loss = -ctx.A.mm(x)  # (*BABEM, nr, ncols)\n",
      "            with ctx.A.uselinopparams(*params):\n                loss = -ctx.A.mm(x)  # (*BABEM, nr, ncols)\n", 1),
     ("c17_nofa_connect_graph_removed", "C17", "xitorch/grad/jachess.py",
      "        res = connect_graph(res, self.objparams)\n        return res\n",
@@ -249,6 +252,12 @@ MUTANTS = [
     ("c19_jac_keeps_params_revert", "C19", "xitorch/grad/jachess.py",
      "        return self.param_sep.reconstruct_params(self.params_tensor)\n",
      "        self.params = self.param_sep.reconstruct_params(self.params_tensor)\n        return self.params\n", 1),
+    ("c19_solve_clone_nograd_revert", "C19", "xitorch/linalg/solve.py",     # revert of 8c150a4 (solve half)
+     "            params = [p.clone().requires_grad_() if p.requires_grad else p for p in params]\n",
+     "            params = [p.clone().requires_grad_() for p in params]\n", 1),
+    ("c19_symeig_clone_nograd_revert", "C19", "xitorch/linalg/symeig.py",   # revert of 8c150a4 (symeig half)
+     "            params = [p.clone().requires_grad_() if p.requires_grad else p for p in params]\n",
+     "            params = [p.clone().requires_grad_() for p in params]\n", 1),
     ("c20_getter_internal_list_revert", "C20", "xitorch/_core/packer.py",
      "            params_tensors = list(params_tensors)\n", "            pass\n", 1),
     ("c20_atomic_revert", "C20", "xitorch/_core/packer.py",
